@@ -163,7 +163,7 @@ NORM = NORMALISE_TRUST
 _p('C01', 'model_checking', 'DESIGN.md 5/C01',
    [BOUNDED_ASSUME, CALLBACK_ASSUME, HIST_ASSUME,
     "scope: every insertion sequence (hinted and unhinted alternating) of length <= 3 (thorough: <= 4) over keys {0,1,2} -- all BST shapes reachable that way, duplicates included -- each followed by find of every key, erase of every key (twice) and re-insert; plus 8-key trees in 2 (thorough: 4) insertion orders x 3 (8) erase orders; traversal and clear on the same trees",
-    "step contracts (unbounded in the rest of the tree): __cstl_bintree_rotate on all 48 neighbourhood shapes, __cstl_bintree_erase on 51 shapes (successor at most 3 levels down the right subtree); no inductive argument for the descent loops of insert / find: CBMC has no inductive heap predicates, whole operations are bounded only",
+    "step contracts (unbounded in the rest of the tree): __cstl_bintree_rotate on all 48 neighbourhood shapes, __cstl_bintree_erase on 51 shapes (successor at most 3 levels down the right subtree), cstl_bintree_insert on 337 descent neighbourhoods (from the root or a hint, paths of 0..3 nodes); no inductive argument for longer descents or for find: CBMC has no inductive heap predicates, whole operations are bounded only",
     STEP_ASSUME],
    [NORM])
 _p('C02', 'model_checking', 'DESIGN.md 5/C02',
